@@ -378,6 +378,16 @@ func c05RunHistories(e *Env, suite string) {
 			rank[id] = i
 		}
 		epochs.InitGenesis(ctx, ek, gs)
+		// the Canto chain bonds and mints the same denomination (acanto); the test application's default genesis bonds
+		// "stake", which would make the bonded ratio independent of what the hook mints
+		sp, err := a.StakingKeeper.GetParams(ctx)
+		if err != nil {
+			panic(err)
+		}
+		sp.BondDenom = "acanto"
+		if err := a.StakingKeeper.SetParams(ctx, sp); err != nil {
+			panic(err)
+		}
 		bondDenom, err := a.StakingKeeper.BondDenom(ctx)
 		if err != nil {
 			panic(err)
@@ -660,6 +670,17 @@ func c05GenCase(e *Env, suite string, kase *c05Case, day int64) {
 		}
 		bonded = new(big.Int).Mul(per, big.NewInt(int64(1+e.Pick(3))))
 		extra = new(big.Int).Mul(per, big.NewInt(int64(2+e.Pick(6))))
+		// ... with a bonding incentive that really depends on the ratio: variance > 0, target above the ratio, minting on,
+		// mint denomination = bond denomination (the mint itself then changes the ratio)
+		if bigOf(kase.Params.Exp.MaxVar).Sign() == 0 {
+			kase.Params.Exp.MaxVar = new(big.Int).Quo(c05S, big.NewInt(2)).String()
+		}
+		if min := new(big.Int).Quo(new(big.Int).Mul(c05S, big.NewInt(8)), big.NewInt(10)); target.Cmp(min) < 0 {
+			target = min
+			kase.Params.Exp.Target = min.String()
+		}
+		kase.Params.Enable = true
+		kase.Denom = "acanto"
 		e.Stats.Count("bonded-ratio:supply-comparable-to-one-provision")
 	case 0: // nothing bonded
 		extra = e.Mag(100)
